@@ -603,6 +603,12 @@ _more("C34", "Added (C34-id-bucket): every store of a transaction id into a requ
       "followed on every path by evdns_request_insert/request_submit — the id decides the bucket in-flight requests are found in.", "who-may-store + must-pass-through (K3/K5)")
 _more("C36", "Added (C36-name-format): every evutil_snprintf of a number-built name into a fixed local buffer of evdns.c fits in the worst case of its conversions (argument ranges from casts and "
       "masks), terminator included — a truncated reverse name is a query for another name.")
+_more("C37", "Added (C37-reply-items): once request_parse has attached a reply item to the request (the OPT pseudo-record), no path reaches the failure exit that frees the request without its "
+      "reply items (K11 on the CFG).")
+_more("C38", "Added (C38-hosts-eval): evdns_getaddrinfo_fromhosts evaluated over hosts entries of seven family combinations x wanted family x allocation failure: not in the table -> -1; in the "
+      "table -> exactly the entries of the wanted family, or the address-family error when there is none (never 'not in hosts'); allocation failure -> -1 and nothing handed out.", "finite evaluation with a scripted hosts table (K6)")
+_more("C42", "Added (C42-payload-eval): evtag_unmarshal evaluated on payload lengths 0, 1, all-that-is-buffered and a failing header, with evbuffer_pullup's contract (NULL for size 0): the length is "
+      "returned, exactly the payload is handed on and drained.")
 _more("C04", "Added (C04-evmap): the reader/writer counts of an fd are stored only after the backend accepted the add (C05's rule, run here as well) — counts stored before a failing "
       "backend add make the next add believe the fd is registered, and the backend is never told about events this property promises to deliver.")
 _more("C35", "Added: the compression-table lookup is decided by evaluation — on every table of up to three distinct names (prefixes and suffixes of one another) and seven looked-up names the "
